@@ -24,7 +24,7 @@ def confirm(d, run_suite=True):
     res = {}
     try:
         demo_src = open(os.path.join(d, "demo.py")).read()
-        demo_src = re.sub(r"/tmp/mut/C\d+", wt, demo_src)
+        demo_src = re.sub(r"/tmp/mut/C\d+|/tmp/seedwt_\w+", wt, demo_src)
         os.makedirs(os.path.join(wt, "out"), exist_ok=True)
         open(os.path.join(wt, "out", "demo.py"), "w").write(demo_src)
         rc0, out0 = sh("timeout 600 /venv/bin/python out/demo.py", cwd=wt)
